@@ -22,7 +22,7 @@ RULE = (
 )
 TIERS = {"quick": {"shards": 8, "n": 250, "budget_s": 220}, "thorough": {"shards": 16, "n": 2000, "budget_s": 2700}}
 FLOOR = {"quick": 80, "thorough": 4000}
-REQUIRED_LABELS = {"quick": ["bulk-strict-slice", "crud:C", "crud:R", "crud:D", "crud:CRD", "name:multi-word", "models=2", "table:titlecases-to-class", "pk:explicit", "upsert-into-existing-routes", "gen_routes-via-cli"], "thorough": []}
+REQUIRED_LABELS = {"quick": ["bulk-strict-slice", "crud:C", "crud:R", "crud:D", "crud:CRD", "name:multi-word", "models=2", "table:titlecases-to-class", "pk:explicit", "upsert-into-existing-routes", "gen_routes-via-cli", "one-routes-file-for-all-models", "route-is-prefix-of-another"], "thorough": []}
 ASSUMPTIONS = ["the strict slice for openapi_bulk is: explicit or inferable PK among the generated columns, no ForeignKey, table name that title-cases to the class name (P16, P32, P33 cover the rest); cdd.compound.openapi.emit.openapi has no open class"]
 COLS = {"int": "Integer", "str": "String", "bool": "Boolean", "float": "Float"}
 CRUDS = ["C", "R", "D", "CR", "CD", "RD", "CRD"]
@@ -39,9 +39,9 @@ def init_worker(ctx):
 
 
 @st.composite
-def model(draw, used):
+def model(draw, used, words=None):
     W = st.sampled_from(["Foo", "Bar", "Config", "Item", "Node", "User", "Log"])
-    words = draw(st.one_of(st.lists(W, min_size=1, max_size=1), st.lists(W, min_size=1, max_size=1), st.lists(W, min_size=2, max_size=2)))
+    words = words or draw(st.one_of(st.lists(W, min_size=1, max_size=1), st.lists(W, min_size=1, max_size=1), st.lists(W, min_size=2, max_size=2)))
     cls = "".join(words)
     while cls in used:
         cls += "X"
@@ -72,7 +72,13 @@ def model(draw, used):
 def case_strategy(draw):
     used = set()
     models = [draw(model(used)) for _ in range(draw(st.integers(1, 3)))]
-    return {"models": models, "app": draw(st.sampled_from(["rest_api", "app", "api_v2"])), "prefix": draw(st.sampled_from(["/api", "", "/v1/things"])), "cli": draw(st.booleans())}
+    if len(models) >= 2 and not models[0]["multi"] and draw(st.integers(0, 2)) == 0:
+        # `Order` next to `Orderline`: the route of one model is a string prefix of another's
+        ext = draw(model(used, words=[models[0]["cls"] + draw(st.sampled_from(["line", "set", "name"]))]))  # ONE word: title-cases to itself
+        models[draw(st.integers(1, len(models) - 1))] = ext
+        if draw(st.booleans()):
+            models.reverse()
+    return {"shared_routes": draw(st.booleans()), "models": models, "app": draw(st.sampled_from(["rest_api", "app", "api_v2"])), "prefix": draw(st.sampled_from(["/api", "", "/v1/things"])), "cli": draw(st.booleans())}
 
 
 def strategy(ctx):
@@ -184,6 +190,10 @@ def oracle(case):
     r = Result()
     models = case["models"]
     r.label("models=%d" % len(models))
+    if case.get("shared_routes") and len(models) >= 2:
+        r.label("one-routes-file-for-all-models")
+        if any(a["cls"] != b["cls"] and b["cls"].startswith(a["cls"]) for a in models for b in models):
+            r.label("route-is-prefix-of-another")
     if all(m["tbl"].replace("_tbl", "").title() == m["cls"] and not (m.get("emitted") and (m["pk"] == "none" or any(c["fk"] for c in m["cols"]))) for m in models):
         r.label("bulk-strict-slice")
     for m in models:
@@ -232,7 +242,8 @@ def oracle(case):
             if m.get("emitted"):
                 r.label("model:emitted-by-cdd")
         for i, m in enumerate(models):
-            mp, rp = os.path.join(d, "models%d.py" % i), os.path.join(d, "routes%d.py" % i)
+            # one routes file per model, or - as an application would have it - one file for all of them
+            mp, rp = os.path.join(d, "models%d.py" % i), os.path.join(d, "routes%s.py" % ("" if case.get("shared_routes") else i))
             with open(mp, "w") as f:
                 f.write(model_src(m))
             route = "%s/%s" % (case["prefix"], m["cls"].lower())
@@ -271,11 +282,11 @@ def oracle(case):
                 src_routes = open(rp).read()
                 n_defs = sum(isinstance(x, __import__("ast").FunctionDef) for x in __import__("ast").parse(src_routes).body)
                 n_want = len(set(m["crud"]) | set(m["crud0"]))
-                if n_defs != n_want:
+                if n_defs != n_want and not case.get("shared_routes"):
                     r.fail("upsert-duplicates", "%s: routes file holds %d route functions after upserting %s then %s (want %d)" % (m["cls"], n_defs, m["crud0"], m["crud"], n_want))
         try:
             with core.quiet():
-                docB = cdd.compound.openapi.gen_openapi.openapi_bulk(app_name=case["app"], model_paths=mpaths, routes_paths=rpaths)
+                docB = cdd.compound.openapi.gen_openapi.openapi_bulk(app_name=case["app"], model_paths=mpaths, routes_paths=sorted(set(rpaths), key=rpaths.index))
         except Exception as e:
             if known:
                 r.covered(known)
